@@ -41,9 +41,9 @@ def frame_census(ctx):
 
 def obligations(ctx):
     obs = ctx.verify(FUNCTIONS)
-    obs += lemmas(ctx)
-    obs += literal(ctx)
-    obs += frame_census(ctx)
+    obs += ctx.part(lemmas)
+    obs += ctx.part(literal)
+    obs += ctx.part(frame_census)
     return obs
 
 
